@@ -1,0 +1,43 @@
+//! Verification hooks. Only compiled with the `verif` cargo feature (off by default).
+//!
+//! Nothing in here changes the behaviour of the library unless a harness explicitly switches one
+//! of the shims on for the current thread: the clock, socket and random-number shims all default
+//! to the real implementations.
+
+#![allow(missing_docs)]
+
+pub mod net;
+pub mod rng;
+pub mod time;
+
+// Re-exports that let an external harness drive the internals through their existing `pub`
+// methods.
+pub use crate::half_connection::Config as HalfConnectionConfig;
+pub use crate::half_connection::FrameSink;
+pub use crate::half_connection::HalfConnection;
+pub use crate::half_connection::PacketSink;
+pub use crate::half_connection::{FeedbackData, SendRateComp};
+
+/// The frame types and the codec.
+pub mod frame {
+    pub use crate::frame::*;
+}
+pub use crate::frame::serial::verif_crc_compute as crc_compute;
+pub use crate::frame::serial::Serialize;
+
+use std::cell::Cell;
+
+thread_local! {
+    static DUD_COUNT: Cell<u64> = Cell::new(0);
+}
+
+/// Called by the assembly window each time a packet is replaced by a data-less placeholder
+/// because it would exceed the receive allocation.
+pub fn count_dud() {
+    DUD_COUNT.with(|c| c.set(c.get() + 1));
+}
+
+/// Number of placeholder ("dud") packets produced on this thread so far.
+pub fn dud_count() -> u64 {
+    DUD_COUNT.with(|c| c.get())
+}
